@@ -167,7 +167,7 @@ Section Laws.
     induction m as [|[w x] m IH]; simpl; intro H; [reflexivity|].
     destruct (Nat.eqb w v) eqn:E.
     - exfalso. apply H. left. apply Nat.eqb_eq. exact E.
-    - apply IH. tauto.
+    - apply IH. intro Hin. apply H. right. exact Hin.
   Qed.
 
   Lemma get_prod_ones v ks others :
